@@ -584,21 +584,24 @@ def select__distinct_values(self: XPathFunction, context: ta.ContextType = None)
             if case_insensitive and isinstance(value, (str, bytes)):
                 value = value.casefold()
 
-            if isinstance(value, (float, Decimal)):
-                if math.isnan(value):
+            # xs:untypedAtomic values are compared as xs:string values
+            key = value.value if isinstance(value, UntypedAtomic) else value
+
+            if isinstance(key, (float, Decimal)):
+                if math.isnan(key):
                     if not nan:
                         yield value
                         nan = True
-                elif all(not math.isclose(value, x, rel_tol=1E-18, abs_tol=0)
+                elif all(not math.isclose(key, x, rel_tol=1E-18, abs_tol=0)
                          for x in results
                          if isinstance(x, (int, Decimal, float)) and not isinstance(x, bool)):
                     yield value
-                    results.append(value)
+                    results.append(key)
 
-            elif not any(value == x and isinstance(value, bool) is isinstance(x, bool)
+            elif not any(key == x and isinstance(key, bool) is isinstance(x, bool)
                          for x in results):
                 yield value
-                results.append(value)
+                results.append(key)
 
     if len(self) < 2:
         collation = self.parser.default_collation
@@ -647,8 +650,13 @@ def select__index_of(self: XPathFunction, context: ta.ContextType = None) -> Ite
     else:
         collation = self.get_argument(context, 2, required=True, cls=str)
 
+    if isinstance(value, UntypedAtomic):
+        value = value.value  # xs:untypedAtomic values are compared as xs:string values
+
     with CollationManager(collation, self) as manager:
         for pos, result in enumerate(self[0].atomization(context), start=1):
+            if isinstance(result, UntypedAtomic):
+                result = result.value
             if isinstance(result, bool) is isinstance(value, bool) and manager.eq(result, value):
                 yield pos
 
